@@ -107,6 +107,6 @@ KStar == CHOOSE k \in 0..6 : DayOf(NM(k)) <= Dz /\ DayOf(NM(k + 1)) > Dz
 
 AnchorLaw == pc = "done" => first = DayOf(NM(KStar + n))
 
-(* after Adjust, w is within a day and a half of conjunction KStar: the aim of Shuo2 cannot slip to a neighbour *)
-AnchorNear == pc = "aim" => (w - NM(KStar) < 2 * U /\ NM(KStar) - w < 2 * U)
+(* after Adjust, w is within three days of conjunction KStar (rounding to a day, two perturbations): the aim of Shuo2, which tolerates 14 days, cannot slip to a neighbour *)
+AnchorNear == pc = "aim" => (w - NM(KStar) < 3 * U /\ NM(KStar) - w < 3 * U)
 =============================================================================
